@@ -251,8 +251,38 @@ pub fn pool() -> Vec<(&'static str, String)> {
         ("plain", PLAIN.to_string()),
         ("decoy", format!("{}{}", DECOY, BUILTINS)),
         ("lonely", format!("{}{}", LONELY, BUILTINS)),
+        ("prefixes", format!("{}{}", PREFIXES, BUILTINS)),
+        ("introspective", format!("{}{}{}", INTROSPECTIVE, BUILTINS, INTROSPECTION_TYPES)),
     ]
 }
+
+/// names that are prefixes / substrings of one another in every name space (types, union members,
+/// fields, arguments, enum values, input fields, directives): look-ups must compare whole names
+pub const PREFIXES: &str = "
+interface Actor { id: ID }
+interface Act { id: ID }
+type User implements Actor { id: ID name: String nam: String }
+type UserGroup implements Act { id: ID users: [User] user: User }
+type Use { id: ID }
+type Post { id: ID title: String }
+union SearchResult = UserGroup | Post
+union Account = User
+union Us = Use | User
+enum Kind { A AB ABC }
+input In { a: Int ab: Int abc: Int! = 1 }
+type Query { search: SearchResult user: User userGroup: UserGroup use: Use account: Account actor: Actor act: Act us: Us f(a: Int, ab: Int, abc: Int! = 1): Int kind(k: Kind, ki: Kind = AB): Int in(i: In): Int }
+type Subscription { user: User userGroup: UserGroup us: Us }
+directive @a on FIELD
+directive @ab(a: Int, ab: Int!) on FIELD | QUERY
+directive @abc repeatable on FIELD
+";
+
+/// a schema that spells out the introspection machinery itself: the meta fields `__schema` and
+/// `__type(name:)` are DECLARED on the query root (with their arguments) next to the introspection types
+pub const INTROSPECTIVE: &str = "
+schema { query: Root }
+type Root { __schema: __Schema! __type(name: String!): __Type node(name: String!): __Type a: Int q: Query }
+";
 
 /// a well-formed schema that does NOT declare @skip / @include (a schema need not): the names
 /// the code may special-case must behave like any other undeclared directive
